@@ -73,6 +73,15 @@ def absorb_filtered(c, res, prop, extra_props=()):
         p = (m.get('sig') or {}).get('prop')
         if p in keep:
             c.violation(m['what'], m['case'], m.get('sig') or {})
+        elif p == 'readiness':
+            # behaviour the specification covers beyond the listed properties (start tracker / health endpoint):
+            # a divergence is reported as a note and recorded, it is not a violation of a listed property
+            notes = c.extra.setdefault('beyond_properties', [])
+            if len(notes) < 5:
+                notes.append(m['what'][:300])
+            if not getattr(c, '_noted_readiness', False):
+                c._noted_readiness = True
+                print('NOTE: specification and code diverge outside the listed properties (start tracker): %s' % m['what'][:300])
         else:
             other += 1
     c.evaluations += res.get('evaluations', 0)
